@@ -89,6 +89,16 @@ def sanitizer_verdict(stderr, bindings_file):
         kind = "leak"
     elif "runtime error:" in stderr:
         kind = "ub"
+        m = re.search(r"runtime error: (.*)", stderr)
+        msg = m.group(1) if m else ""
+        slug = "other"
+        for pat, name in (("not a valid value for type 'bool'", "invalid-bool-load"), ("misaligned", "misaligned-access"), ("null pointer", "null-pointer"),
+                          ("signed integer overflow", "signed-overflow"), ("shift", "shift"), ("out of bounds", "index-out-of-bounds"),
+                          ("not a valid value for type", "invalid-enum-load"), ("outside the range of representable", "float-cast-overflow")):
+            if pat in msg:
+                slug = name
+                break
+        ubslug = slug
     else:
         return None
     base = os.path.basename(bindings_file)
@@ -104,7 +114,10 @@ def sanitizer_verdict(stderr, bindings_file):
             first = "?"
     if first is None:
         return (kind, None, stderr[-1500:])
-    return (kind, classify_fn(first) if first != "?" else "generated-code", stderr[-1500:])
+    fk = classify_fn(first) if first != "?" else "generated-code"
+    if kind == "ub":
+        fk = fk + ":" + ubslug
+    return (kind, fk, stderr[:1500])
 
 
 def run_world(tc, w, mode, seed, sets, builds, keep=False, only=None):
